@@ -3,7 +3,9 @@ may depend on (checked against Print Assumptions on every run)."""
 from sfv import STDLIB_AXIOMS_ALLOWED
 
 THEOREMS = {
-    "C01": [],
+    "C01": ["C01_roundtrip_seq", "C01_same_type", "C01_xyz_bit_identical", "C01_measures", "C01_measure_rule",
+            "C01_kinds_and_box", "C01_roles"],
+    "C02": ["C02_record", "C02_emits_spec", "C02_conformant", "C02_geometry_recovered"],
     "C03": ["C03_record", "C03_decodes_conformant"],
     "C09": ["C09_finalize_irrelevant", "C09_files", "C09_finalize_complete", "C09_clean_finalize_silent"],
     "C10": ["C10_reject", "C10_erase"],
@@ -16,7 +18,9 @@ THEOREMS = {
 # theorems whose statement mentions the orientation test (Flocq binary64 arithmetic) inherit the four
 # classical-reals axioms of the standard library through Flocq's definitions
 FLOCQ = set(STDLIB_AXIOMS_ALLOWED)
-AXIOMS = {"C03_record": FLOCQ, "C03_decodes_conformant": FLOCQ}
+AXIOMS = {"C03_record": FLOCQ, "C03_decodes_conformant": FLOCQ, "C01_roundtrip_seq": FLOCQ, "C01_roles": FLOCQ, "C01_same_type": FLOCQ, "C01_xyz_bit_identical": FLOCQ,
+          "C01_measures": FLOCQ, "C01_kinds_and_box": FLOCQ,
+          "C02_geometry_recovered": FLOCQ}
 
 
 def allowed_axioms(theorem):
